@@ -24,4 +24,7 @@ def jobs(tier):
         js.append(Job(name=f"toassign-atomic-{k}", src="../C01/toassign.c", group="C16.3 op= on an atomic object", defs={"KIND": k, "FORM": "2"}, units=["type.c", "hashmap.c", "strings.c"], mode="plain",
                       cut=["error", "error_tok", "error_at", "warn_tok"], havoc=["format"], cut_defined=["rehash"], timeout=180, unwind=20, replay=None,
                       sample=f"to_assign(A {k}= B) with an _Atomic A (integer or pointer object): compare-exchange retry loop"))
+        js.append(Job(name=f"toassign-atomic-member-{k}", src="../C01/toassign.c", group="C16.3 op= on an atomic object", defs={"KIND": k, "FORM": "3"}, units=["type.c", "hashmap.c", "strings.c"], mode="plain",
+                      cut=["error", "error_tok", "error_at", "warn_tok"], havoc=["format"], cut_defined=["rehash"], timeout=180, unwind=20, replay=None,
+                      sample=f"to_assign(A {k}= B) with an _Atomic member S.x: compare-exchange retry loop"))
     return js
